@@ -110,6 +110,8 @@ func writeBaselineFile(pc *PropertyCheck) int {
 func init() {
 	register(&PropSpec{ID: "C06", Level: "proof", Contracts: true,
 		Technique: "contract-based deductive verification: ghost-aggregate delta contracts on the real stablestake keeper functions, VCs from go/ssa discharged by z3/cvc5"})
+	register(&PropSpec{ID: "C07", Level: "proof", Contracts: true,
+		Technique: "contract-based deductive verification: Bond/Unbond issue and redeem at the live rate (postconditions over the same fixed-point terms the code computes, rounding made explicit), exact integer 90% cap on Borrow; VCs from go/ssa discharged by z3/cvc5"})
 	register(&PropSpec{ID: "C12", Level: "proof", Contracts: true,
 		Technique: "contract-based deductive verification: ledger spec functions (committedOf, lockedFor) with type-level contracts (collections bounded), keeper-level delta contracts over ghost aggregates, hook frame checked against its implementation; VCs from go/ssa discharged by z3/cvc5"})
 	register(&PropSpec{ID: "C14", Level: "proof", Contracts: true,
